@@ -427,8 +427,8 @@ func init() {
 					if !ok || b.Op != token.SHL || !IsConstInt(1)(b.X) {
 						return
 					}
-					// shift amount is tsn % 64
-					if r, ok := unconv(b.Y).(*ssa.BinOp); ok && r.Op == token.REM && IsConstInt(64)(r.Y) {
+					// shift amount is tsn % 64 (possibly computed by a position helper)
+					if BinV(token.REM, AnyV, IsConstInt(64))(b.Y) {
 						okBit = true
 					}
 				})
